@@ -225,6 +225,25 @@ P = {
    note=TB + " xls/xlsb defined-name formulas go through C14's Ptg decoder; zip and quick-xml are outside the model.",
    technique="Coq proof (induction over sheet / name / event lists per format; injective tables) + extracted-model correspondence on generated workbooks",
    design_ref="5/C16"),
+ "C01": dict(claimed=True,
+   text="Coq theorems over XlsxSheet.v (on Col26, Range, HeaderRow), at the XML event level and for every oracle parse_f64: "
+        "C01_a1_roundtrip (every row with row+1 < 10^9 and column < 26^6 — the scanner's exact no-overflow bounds, containing "
+        "A1..XFD1048576 — parses back, upper and lower case agree; C01_a1_row_limit_exact shows the bound is tight); "
+        "C01_cursor_equiv (explicit r attributes and implicit positions of the same cells give the same positions: cursor-invariant "
+        "induction over rows and cells); C01_typing_table / _inline (read_v as a total table over t and v); C01_xlsx_sheet_main: for "
+        "every legal sheet encoding (explicit/implicit refs per row and cell, dimension absent/exact/wrong, shared vs inline vs str "
+        "strings, ignorable siblings, namespace prefixes, empty rows, style-only cells) outside the known classes, "
+        "xlsx_sheet_model (encode sh) = range_of (logical sh) — tight bounding box, value at every absolute position, via "
+        "from_sparse_spec and from_sparse_map; C01_encoding_independent; C01_target_normal_form, C01_sheet_type_of_folder, "
+        "C01_part_lookup_case_insensitive / _recased. Known classes GETTING_DATA and F30 with refutations. Tie: generated .xlsx "
+        "files (all encoding variations x sparse cell sets incl. the four corners and the Z/AA, AZ/BA, ZZ/AAA column edges, 1..n "
+        "sheets, part-name case, target spellings, stored/deflated entries) through Xlsx::new + worksheet_range(_ref) + worksheets(), "
+        "and an exhaustive column sweep through the A1 hook.",
+   note=TB + " PARTIAL: the workbook-level composition (open_sheets over an arbitrary legal package) has path-function theorems and a computed example, "
+        "tied by correspondence, but no general theorem; quick-xml tokenisation/unescaping, zip and str::parse::<f64> are outside the model; "
+        "chunked text / CDATA / rich runs are C19's encoders.",
+   technique="Coq proof (A1 arithmetic, cursor-invariant induction over rows/cells, reduction to from_sparse_spec) + extracted-model correspondence on real .xlsx files",
+   design_ref="5/C01"),
 }
 REASON_TODO = "not claimed yet: model and theorems for this property are still being built (see DESIGN.md section 9)"
 
